@@ -1,6 +1,7 @@
 #!/bin/bash
+# tools/thorough_subset.sh [IDs...] — thorough tier for a subset (default: the checks changed last)
 rc=0
-for id in C01 C04 C07 C10 C16 C17 C19; do
+for id in ${@:-C20}; do
   out=$(./check "$id" thorough 2>/dev/null); code=$?
   echo "$id exit=$code $(echo "$out" | grep -v '^KNOWN-FINDING' | tail -1 | cut -c1-200)"
   [ $code -ne 0 ] && rc=1
